@@ -6,28 +6,37 @@ import vlib
 PID = "C11"
 
 CLAIM = dict(
-    text="Machine-checked Coq theorems over executable models of both target checks (resolution.rs "
-         "AstResolver::validate_target: exact names, first failure wins; targets.rs validate_target: semver-aware "
-         "NameMap with shadowing, three-set report): each verdict and each diagnostic is characterised by a "
-         "declarative conformance relation (imports within world imports + used interfaces at satisfying types, every "
-         "world export provided at a conforming type; exact or semver name discipline); the stand-alone check never "
-         "panics; the two verdicts provably coincide when no two distinct names lie on one semver track and provably "
-         "differ otherwise (refuted with a witness that is replayed on the real code: known finding), and provably "
-         "coincide on every pair for the repaired resolution check (second model variant, selected from the source "
-         "tree); for any oracle deciding component-model subtyping the resolution verdict is component subtyping of "
-         "(imports, exports). Tied to the code on every run by generated (world, composition) pairs with three real "
-         "verdicts per pair (Document::resolve, validate_target on the encoded output, wasmparser component "
-         "subtyping through wit_component::targets) plus the import/export names read back from the binary, and by "
-         "synthetic worlds through the public validate_target API.",
+    text="Machine-checked Coq theorems (16) over executable models of both target checks (resolution.rs "
+         "AstResolver::validate_target; targets.rs validate_target: semver-aware NameMap with shadowing, three-set "
+         "report): each verdict and each diagnostic is characterised by a declarative conformance relation (imports "
+         "within world imports + used interfaces at satisfying types, every world export provided at a conforming "
+         "type; exact or semver name discipline); the stand-alone check never panics; the two verdicts provably "
+         "coincide on every well-formed pair for the repaired (semver-aware) resolution check and provably differed "
+         "before the repair (refuted with a witness; fixed in the repository). With the subtype oracle INSTANTIATED by "
+         "the checker model of C07 (one collection, ItemKind::promote, one checker threaded through both loops with "
+         "its memo, invert/revert and the import_spans index sites): the threaded model never panics under the "
+         "resolver's span invariant and equals the abstract model; for resource-free pairs the resolution verdict is Ok "
+         "iff the composition's component type is a component-model subtype (SubCM) of the world's with names matched "
+         "up to the semver discipline, and literally SubCM of the two component types when no two names share a track. "
+         "Every executable specification function evaluated on implementation observations (conforms_b, spec_first, "
+         "the set printers) is proved equal to its declarative form. Tied to the code on every run by generated "
+         "(world, composition) pairs with three real verdicts per pair (Document::resolve, validate_target on the "
+         "encoded output, wasmparser component subtyping through wit_component::targets) plus the import/export names "
+         "read back from the binary, by synthetic worlds through the public validate_target API, and by a "
+         "source-text tie for the span bookkeeping.",
     design_ref="DESIGN.md §5 C11, §7 item 9",
     note="Trusted: Coq kernel; extraction; OCaml driver; Rust harness (WIT/WAC generators, abstract-description "
-         "dump, subtype oracle computed with the real SubtypeChecker per pair); models in Targets.v hand-written and "
-         "validated by correspondence. The subtype checker itself is an oracle here (property C07). Interpretation: "
-         "the reference validator compares names literally, so its verdict is compared with the target verdicts up to "
-         "semver-compatible names (literal subtyping implies acceptance; acceptance implies literal subtyping unless a "
-         "name of the pair matches only through semver compatibility).",
+         "dump, subtype table computed with the real SubtypeChecker per pair); models in Targets.v/TargetsChecker.v "
+         "hand-written; Targets.v validated by correspondence, TargetsChecker.v (threaded checker) related to it by "
+         "proof and to the code through C07's correspondence of Checker.v. Remaining hypotheses of the component-"
+         "subtyping theorem: wf_types (C07), pages_ok (C07's known memory-default-page-size scope), one kind per "
+         "name, no dangling identifiers (fuel then exists: fuel_suffices), resource-free kinds. The invariant "
+         "spans_cover (every explicit import node has a span) is not derived from a resolver model (C04's Resolver.v "
+         "leaves spans out); it is tied to the source text on every run. Interpretation: the reference validator "
+         "compares names literally, so its verdict is compared with the target verdicts up to semver-compatible names.",
     technique="Coq proof (first-failure scans, NameMap invariant under shadowing inserts, trichotomy of failure "
-              "classes) + extracted-model correspondence on generated WIT worlds / WAC compositions")
+              "classes, transport along unfold to SubSpec trees, C07 memo/variance theorems) + extracted-model "
+              "correspondence on generated WIT worlds / WAC compositions")
 
 # Findings proposed by this check; the main session moves them to /verif/known-findings.json.
 PROPOSED_KNOWN = [dict(
@@ -68,6 +77,35 @@ def resolution_variant():
     if "all_imports" in body and "NameMapNoIntern" in body and ".get_export(name)" not in body:
         return "semver"
     return "unknown"
+
+
+def span_bookkeeping_tie():
+    """Source-text tie for the invariant [spans_cover] of resolve_target_full_never_panics: explicit import nodes
+    are created at one place of resolution.rs, which records the span right away; nodes are never removed by the
+    resolver; CompositionGraph::imports() attaches a node only to NodeKind::Import entries.  Returns a list of
+    problems (empty = tie holds)."""
+    import re
+    bad = []
+    src = open(os.path.join(vlib.REPO, "crates", "wac-parser", "src", "resolution.rs")).read()
+    calls = [m.start() for m in re.finditer(r"\.\s*import\(", src)]
+    if len(calls) != 1:
+        bad.append("expected exactly one graph.import(..) call in resolution.rs, found %d" % len(calls))
+    else:
+        tail = src[calls[0]:calls[0] + 400]
+        if "state.import_spans.insert(node, span);" not in tail:
+            bad.append("the graph.import(..) call is not followed by state.import_spans.insert(node, span)")
+    for needle in ("remove_node(", "import_spans.remove", "unregister_package("):
+        if needle in src:
+            bad.append("resolution.rs mentions %s" % needle)
+    body = src[src.rindex("fn validate_target("):]
+    if body.count("state.import_spans[&n]") != 2 or "export_spans[" in body:
+        bad.append("validate_target indexes the span maps at other places than the two modelled ones")
+    g = open(os.path.join(vlib.REPO, "crates", "wac-graph", "src", "graph.rs")).read()
+    i = g.index("pub fn imports(&self)")
+    gb = g[i:i + 1600]
+    if gb.count("Some(n)") != 1 or "NodeKind::Import(name) = &node.kind" not in gb:
+        bad.append("CompositionGraph::imports() no longer attaches nodes to NodeKind::Import entries only")
+    return bad
 
 
 def dec(s):
@@ -154,8 +192,12 @@ def run(res, tier, seed, replay):
         res.violation(dict(kind="broken-tie", what="harness does not build against the repository", log=log[-3000:]),
                       no_input=True)
         return
-    rd = os.path.join(vlib.BUILD, "c11", "run")
+    # a private scratch directory per invocation: concurrent ./check C11 runs must not clobber each other's files
+    import atexit
+    import shutil
+    rd = os.path.join(vlib.BUILD, "c11", "run", str(os.getpid()))
     os.makedirs(rd, exist_ok=True)
+    atexit.register(shutil.rmtree, rd, True)
     cases_p, impl_p, model_p = (os.path.join(rd, x) for x in ("cases.txt", "impl.txt", "model.txt"))
     extra = ""
     if replay:
@@ -187,6 +229,10 @@ def run(res, tier, seed, replay):
         res.violation(dict(kind="broken-tie", what="AstResolver::validate_target has a shape neither model variant "
                            "(resolve_target / resolve_target_sv) was written for"), no_input=True)
         akey = "A"
+    tie = span_bookkeeping_tie()
+    if tie:
+        res.violation(dict(kind="broken-tie", what="the span bookkeeping assumed by resolve_target_full_never_panics "
+                           "(spans_cover) is no longer visible in the source", problems=tie), no_input=True)
     disagreements = []     # model vs implementation
     prop_fail = []         # specification predicate fails on an implementation observation
     stats = dict(pairs=0, api=0, skipped=0, no_output=0, verdict_i={}, verdict_ii={}, perturbation={},
@@ -433,7 +479,10 @@ def run(res, tier, seed, replay):
             "abstract description of the composition read through CompositionGraph::imports()/get_export (graph) and "
             "Package::from_bytes (encoded output); World::implicit_imported_interfaces is called, not modelled",
             "wit-parser / wit-component (WIT encoding, dummy modules, wit_component::targets) and wasmparser as reference",
-            "SubSpec.v SubCM (declarative component subtyping) enters target_iff_cm_subtype_partial as a definition only"]))
+            "C07's development (Checker.v model of SubtypeChecker, SubSpec.v, CheckerTheorems.v) is imported by the "
+            "oracle-free theorems; its tie to checker.rs is C07's correspondence",
+            "span bookkeeping invariant (spans_cover) tied to resolution.rs / graph.rs by a source-text check, not by a "
+            "resolver model"]))
     res.assumptions = [
         "tables are consistent (one kind per name); measured: %d descriptions violated it and were excluded from the "
         "specification predicate (correspondence still checked)" % stats["wf_failures"],
